@@ -85,6 +85,7 @@ inductive Ev where
   | pingStart | pingStop            -- ping thread started / exited
   | returned (b : Bool)             -- run_forever returned b
   | raisedOut (e : AExn)            -- run_forever raised
+  | closeCall                       -- observer marker (real runs only): another thread calls app.close()
   | blocked                         -- cut at the horizon (the run does not end by itself)
   | outOfFuel
   deriving DecidableEq, Repr, Inhabited
